@@ -37,6 +37,17 @@
 (* it resolved; (d) a pointer batch on a connection that never advertised  *)
 (* is answered with an IOError and the session stays in frame.             *)
 (*                                                                         *)
+(* The client may keep SEVERAL response pointers at once (policies         *)
+(* "session" and "pick") and, under "pick", is done with them one at a     *)
+(* time in an order of its own (ReleaseOne: oldest, newest, middle), so    *)
+(* that later regions -- the server's results and the client's own         *)
+(* requests / inputs -- are first-fitted into holes BETWEEN live regions.  *)
+(* `hmeta` remembers per outstanding pointer its size and whether anything *)
+(* written since overlaps it: (a) is also required of what the client      *)
+(* reads through a pointer later (HeldIntact: after every call and at      *)
+(* every release), every release finds its region (freed), and table       *)
+(* entries are matched one-to-one with the pointers held (leak).           *)
+(*                                                                         *)
 (* Fixed = TRUE is the design the property asks for; Fixed = FALSE is what *)
 (* vgirpc did when this module was written (see PointerRefused and         *)
 (* Stream_Input_Unresolvable): kept as named alternatives.  NEG_asis.cfg   *)
@@ -54,7 +65,8 @@ CONSTANTS
     Calls,     \* call alphabet of the first call
     Probes,    \* call alphabet of the later calls
     Segs,      \* segment size classes [cap, rem]
-    Holds,     \* when the client frees the pointers it received: "now" | "call" | "session"
+    Holds,     \* when the client frees the pointers it received: "now" | "call" | "session" (all at
+               \* once, at a moment of its choosing) | "pick" (one at a time, in any order, between calls)
     Fixed      \* TRUE: refusals drain a stream's input, unresolvable input pointers are refused
 
 VARIABLES
@@ -65,6 +77,9 @@ VARIABLES
                \* not in the segment: 0 = written by the server, k > 0 = the client's k-th region of
                \* the call in progress
     held,      \* offsets of pointers the client received and has not freed yet
+    hmeta,     \* parallel to held: <<units, intact>>; intact = no region written to the segment since the
+               \* pointer was received overlaps the pointer's region (what the client reads through the
+               \* pointer is still the result it was given)
     cpc,       \* client: "idle" | "in" | "out" | "tail"
     spc,       \* server: "read" | "ensure" | "resolve" | "expose" | "nosegcheck" | "dispatch" |
                \*         "unary" | "sinit" | "sin" | "turn" | "drain" | "misdrain" | "dead"
@@ -91,7 +106,7 @@ VARIABLES
     closed,
     hist
 
-vars == <<seg, hold, attached, table, held, cpc, spc, cur, req, eng, ceng, inq, outq, inval, ix, tx,
+vars == <<seg, hold, attached, table, held, hmeta, cpc, spc, cur, req, eng, ceng, inq, outq, inval, ix, tx,
           more, respdone, inclosed, mine, resp, xfer, sent, rogue, extra, ncalls, closed, hist>>
 
 --------------------------------------------------------------------------
@@ -163,6 +178,22 @@ ServerWrite(o) ==
     ELSE LET w == Write(table, Units(o.z), 0) IN
          IF w.ok THEN [b |-> <<"data", o.z, o.m, "shm", w.off, "shm">>, table |-> w.table]
          ELSE [b |-> <<"data", o.z, o.m, "inline", 0, "nofit">>, table |-> table]
+
+\* A region of n units written at o: every outstanding pointer whose region it overlaps no longer
+\* shows the result it was received for.
+Hit(o, n, ho, hn) == o < ho + hn /\ ho < o + n
+RECURSIVE SpoilFrom(_, _, _, _, _)
+SpoilFrom(j, hs, hm, o, n) ==
+    IF j > Len(hm) THEN <<>>
+    ELSE << <<hm[j][1], hm[j][2] /\ ~Hit(o, n, hs[j], hm[j][1])>> >> \o SpoilFrom(j + 1, hs, hm, o, n)
+Spoil(hs, hm, ok, o, n) == IF ok THEN SpoilFrom(1, hs, hm, o, n) ELSE hm
+SpoilByBatch(hs, hm, b) == Spoil(hs, hm, b[4] = "shm", b[5], Units(b[2]))
+RECURSIVE AllOk(_)
+AllOk(hm) == IF hm = <<>> THEN TRUE ELSE Head(hm)[2] /\ AllOk(Tail(hm))
+\* freeAtLocked finds a region exactly at o
+Backed(t, o) == \E i \in 1..Len(t) : Off(t[i]) = o
+RECURSIVE AllBacked(_, _)
+AllBacked(t, hs) == IF hs = <<>> THEN TRUE ELSE Backed(t, Head(hs)) /\ AllBacked(FreeAt(t, Head(hs)), Tail(hs))
 
 --------------------------------------------------------------------------
 (* The plain session, stated directly: what a call answers when no shared   *)
@@ -239,6 +270,29 @@ HistCalls ==
       Call("prod", FALSE, "ptr", FALSE, 0, <<O("L", FALSE), O("S", FALSE)>>, <<>>),
       Call("exch", TRUE, "inl", FALSE, 0, <<O("L", FALSE), O("L", FALSE)>>, <<I("L", "ptr"), I("S", "inl")>>),
       Call("exch", FALSE, "inl", FALSE, 0, <<O("L", FALSE)>>, <<I("L", "ptr")>>) }
+\* calls of a client that keeps its pointers: results of two and three units (a freed hole of two
+\* takes the former and not the latter), several pointers per call, requests and inputs of the
+\* client's own that land in the holes as well
+PickCalls ==
+    { Call("unary", TRUE, "inl", FALSE, 0, <<O("L", FALSE)>>, <<>>),
+      Call("unary", TRUE, "inl", FALSE, 0, <<O("H", FALSE)>>, <<>>),
+      Call("unary", FALSE, "ptr", FALSE, 0, <<O("L", FALSE)>>, <<>>),
+      Call("prod", TRUE, "inl", FALSE, 0, <<O("L", FALSE), O("H", FALSE)>>, <<>>),
+      Call("prod", TRUE, "ptr", FALSE, 0, <<O("H", FALSE), O("L", FALSE)>>, <<>>),
+      Call("exch", TRUE, "inl", FALSE, 0, <<O("L", FALSE), O("L", FALSE)>>, <<I("L", "ptr"), I("S", "ptr")>>) }
+\* first calls that leave three pointers (so that there is a middle one to release)
+PickFirst ==
+    { Call("prod", TRUE, "inl", FALSE, 0, <<O("L", FALSE), O("H", FALSE), O("L", FALSE)>>, <<>>),
+      Call("prod", FALSE, "ptr", FALSE, 0, <<O("L", FALSE), O("L", FALSE), O("H", FALSE)>>, <<>>),
+      Call("prod", TRUE, "inl", FALSE, 0, <<O("L", FALSE), O("H", FALSE)>>, <<>>),
+      Call("exch", TRUE, "inl", FALSE, 0, <<O("L", FALSE), O("L", FALSE)>>, <<I("L", "ptr"), I("S", "ptr")>>) }
+PickMcCalls ==
+    { Call("unary", TRUE, "inl", FALSE, 0, <<O("L", FALSE)>>, <<>>),
+      Call("unary", FALSE, "ptr", FALSE, 0, <<O("H", FALSE)>>, <<>>),
+      Call("prod", TRUE, "inl", FALSE, 0, <<O("L", FALSE), O("H", FALSE)>>, <<>>),
+      Call("exch", TRUE, "inl", FALSE, 0, <<O("L", FALSE), O("L", FALSE)>>, <<I("L", "ptr"), I("S", "ptr")>>) }
+PickSegs == { [cap |-> 5, rem |-> 1], [cap |-> 8, rem |-> 0], [cap |-> 40, rem |-> 0] }
+PickMcSegs == { [cap |-> 7, rem |-> 1], [cap |-> 40, rem |-> 0] }
 McCalls == UnaryCalls({"L"}) \cup ProdCalls(SL, 1) \cup ExchCalls(AllTurns(SL), {}) \cup SpecialCalls
 
 QuickSegs == { [cap |-> 1, rem |-> 0], [cap |-> 2, rem |-> 1], [cap |-> 3, rem |-> 0],
@@ -268,6 +322,7 @@ ServerParked == \/ spc = "dead"
 Start(c) ==
     /\ LET w == IF c.rq = "ptr" THEN Write(table, 1, 1) ELSE [ok |-> FALSE, off |-> 0, table |-> table] IN
        /\ table' = w.table
+       /\ hmeta' = Spoil(held, hmeta, w.ok, w.off, 1)
        /\ mine' = IF w.ok THEN << [off |-> w.off, taken |-> FALSE] >> ELSE <<>>
        /\ sent' = << IF w.ok THEN "ptr" ELSE "inl" >>
        /\ inq' = Append(inq, [t |-> "req", ptr |-> w.ok, off |-> w.off])
@@ -291,6 +346,7 @@ SendInput ==
            w == IF i.f = "ptr" THEN Write(table, Units(i.z), Len(mine) + 1)
                 ELSE [ok |-> FALSE, off |-> 0, table |-> table] IN
        /\ table' = w.table
+       /\ hmeta' = Spoil(held, hmeta, w.ok, w.off, Units(i.z))
        /\ mine' = IF w.ok THEN Append(mine, [off |-> w.off, taken |-> FALSE]) ELSE mine
        /\ sent' = Append(sent, IF w.ok THEN "ptr" ELSE "inl")
        /\ inq' = Append(inq, [t |-> "in", ptr |-> w.ok, off |-> w.off, z |-> i.z])
@@ -305,7 +361,7 @@ CloseInput ==
     /\ inq' = Append(inq, [t |-> "eos", first |-> (ix = 0)])
     /\ inclosed' = TRUE
     /\ cpc' = "tail"
-    /\ UNCHANGED <<seg, hold, attached, table, held, spc, cur, req, eng, ceng, outq, inval, ix, tx, more,
+    /\ UNCHANGED <<seg, hold, attached, table, held, hmeta, spc, cur, req, eng, ceng, outq, inval, ix, tx, more,
                    respdone, mine, resp, xfer, sent, rogue, extra, ncalls, closed>>
     /\ Silent
 
@@ -331,14 +387,18 @@ RECURSIVE PtrOffs(_)
 PtrOffs(q) == IF q = <<>> THEN <<>> ELSE
               (IF Decode(Head(q)).ptr THEN << Decode(Head(q)).off >> ELSE <<>>) \o PtrOffs(Tail(q))
 
+RECURSIVE PtrMeta(_)
+PtrMeta(q) == IF q = <<>> THEN <<>> ELSE
+              (IF Decode(Head(q)).ptr THEN << <<Units(Head(q)[2]), TRUE>> >> ELSE <<>>) \o PtrMeta(Tail(q))
+
 Take(n) ==
     LET q == SubSeq(outq, 1, n) IN
     /\ outq' = SubSeq(outq, n + 1, Len(outq))
     /\ resp' = resp \o Decoded(q)
     /\ xfer' = xfer \o Xfers(q)
     /\ IF hold = "now"
-       THEN table' = FreeAll(table, PtrOffs(q)) /\ held' = held
-       ELSE table' = table /\ held' = held \o PtrOffs(q)
+       THEN table' = FreeAll(table, PtrOffs(q)) /\ held' = held /\ hmeta' = hmeta
+       ELSE table' = table /\ held' = held \o PtrOffs(q) /\ hmeta' = hmeta \o PtrMeta(q)
 
 \* recv(): up to and including the next data / exception batch or the end of the stream
 Recv ==
@@ -377,7 +437,7 @@ RecvNothing ==
     /\ respdone' = TRUE /\ more' = FALSE
     /\ resp' = Append(resp, <<"closed">>)
     /\ cpc' = IF cpc = "out" THEN "in" ELSE cpc
-    /\ UNCHANGED <<seg, hold, attached, table, held, spc, cur, req, eng, ceng, inq, outq, inval, ix, tx,
+    /\ UNCHANGED <<seg, hold, attached, table, held, hmeta, spc, cur, req, eng, ceng, inq, outq, inval, ix, tx,
                    inclosed, mine, xfer, sent, rogue, extra, ncalls, closed>>
     /\ Silent
 
@@ -387,7 +447,8 @@ GoneFrom(k, n, t) == IF k > n THEN <<>> ELSE << ~(\E i \in 1..Len(t) : t[i][3] =
 Gone(ms, t) == GoneFrom(1, Len(ms), t)
 RECURSIVE Taken(_)
 Taken(ms) == IF ms = <<>> THEN <<>> ELSE << Head(ms).taken >> \o Taken(Tail(ms))
-Unaccounted(t, hs) == Cardinality({i \in 1..Len(t) : \A j \in 1..Len(hs) : hs[j] # Off(t[i])})
+\* entries of the table beyond those the pointers the client holds account for, one entry per pointer
+Unaccounted(t, hs) == Len(t) - Cardinality({o \in {hs[j] : j \in 1..Len(hs)} : Backed(t, o)})
 RECURSIVE Col(_, _)
 Col(xs, k) == IF xs = <<>> THEN <<>> ELSE << Head(xs)[k] >> \o Col(Tail(xs), k)
 
@@ -402,12 +463,14 @@ EndCall ==
            stray == CountEos(outq)
        IN
        /\ table' = t2 /\ held' = h2
+       /\ hmeta' = IF hold = "call" THEN <<>> ELSE hmeta
        /\ outq' = <<>>
        /\ extra' = extra + stray
        /\ Record([a |-> "Call", args |-> [c |-> cur, cls |-> rogue, n |-> ncalls],
                   exp |-> [res |-> resp, plain |-> PlainRes(cur),
                            cfreed |-> Gone(mine, table),
                            leak |-> Unaccounted(t2, h2),
+                           intact |-> AllOk(hmeta),
                            extra |-> stray, alive |-> (spc # "dead"),
                            m_taken |-> Taken(mine), m_sent |-> sent,
                            m_via |-> Col(xfer, 1), m_offs |-> Col(xfer, 2), m_why |-> Col(xfer, 3),
@@ -420,11 +483,28 @@ EndCall ==
 
 \* policy "session": the client releases what it holds at a moment of its choosing
 Release ==
-    /\ cpc = "idle" /\ ServerParked /\ ~closed /\ held # <<>> /\ Budget
+    /\ hold # "pick" /\ cpc = "idle" /\ ServerParked /\ ~closed /\ held # <<>> /\ Budget
     /\ table' = FreeAll(table, held)
-    /\ held' = <<>>
+    /\ held' = <<>> /\ hmeta' = <<>>
     /\ Record([a |-> "Release", args |-> [n |-> Len(held), cls |-> "ok"],
-               exp |-> [clean |-> (table' = <<>>), m_tbl |-> Hdr(table')]])
+               exp |-> [clean |-> (table' = <<>>), intact |-> AllOk(hmeta), freed |-> AllBacked(table, held),
+                        m_tbl |-> Hdr(table')]])
+    /\ UNCHANGED <<seg, hold, attached, cpc, spc, cur, req, eng, ceng, inq, outq, inval, ix, tx, more, respdone,
+                   inclosed, mine, resp, xfer, sent, rogue, extra, ncalls, closed>>
+
+\* policy "pick": the client holds several pointers at once and is done with them in an order of its
+\* own (oldest first, newest first, from the middle): it reads the result through the pointer once
+\* more and releases the region.  The server's next regions land in the holes this leaves between
+\* the regions still in use, not only at the tail.
+ReleaseOne ==
+    /\ hold = "pick" /\ cpc = "idle" /\ ServerParked /\ ~closed /\ held # <<>> /\ Budget
+    /\ \E k \in 1..Len(held) :
+         /\ table' = FreeAt(table, held[k])
+         /\ held' = RemoveAt(held, k) /\ hmeta' = RemoveAt(hmeta, k)
+         /\ Record([a |-> "ReleaseOne", args |-> [k |-> k, n |-> Len(held), cls |-> "ok"],
+                    exp |-> [intact |-> hmeta[k][2], freed |-> Backed(table, held[k]),
+                             leak |-> Unaccounted(table', held'), m_tbl |-> Hdr(table')]
+                            @@ (IF held' = <<>> THEN [clean |-> (table' = <<>>)] ELSE [x \in {} |-> 0])])
     /\ UNCHANGED <<seg, hold, attached, cpc, spc, cur, req, eng, ceng, inq, outq, inval, ix, tx, more, respdone,
                    inclosed, mine, resp, xfer, sent, rogue, extra, ncalls, closed>>
 
@@ -433,17 +513,19 @@ Close ==
     /\ cpc = "idle" /\ ServerParked /\ ~closed
     /\ (Mode = "tree") => Len(hist) = Depth - 1
     /\ table' = FreeAll(table, held)
-    /\ held' = <<>>
+    /\ held' = <<>> /\ hmeta' = <<>>
     /\ closed' = TRUE
     /\ Record([a |-> "Close", args |-> [n |-> Len(held), cls |-> "ok"],
-               exp |-> [clean |-> (table' = <<>>), exited |-> TRUE, extra |-> 0, m_tbl |-> Hdr(table')]])
+               exp |-> [clean |-> (table' = <<>>), intact |-> AllOk(hmeta), freed |-> AllBacked(table, held),
+                        exited |-> TRUE, extra |-> 0, m_tbl |-> Hdr(table')]])
     /\ UNCHANGED <<seg, hold, attached, cpc, spc, cur, req, eng, ceng, inq, outq, inval, ix, tx, more, respdone,
                    inclosed, mine, resp, xfer, sent, rogue, extra, ncalls>>
 
 --------------------------------------------------------------------------
 (* Server.                                                                 *)
-SrvUnch == UNCHANGED <<seg, hold, held, cpc, cur, ceng, ix, more, respdone, inclosed, resp, xfer, sent,
-                       extra, ncalls, closed>>
+SrvUnchW == UNCHANGED <<seg, hold, held, cpc, cur, ceng, ix, more, respdone, inclosed, resp, xfer, sent,
+                        extra, ncalls, closed>>
+SrvUnch == SrvUnchW /\ UNCHANGED hmeta
 RECURSIVE Mark(_, _)
 Mark(ms, o) == IF ms = <<>> THEN <<>> ELSE
                << IF Head(ms).off = o THEN [off |-> o, taken |-> TRUE] ELSE Head(ms) >> \o Mark(Tail(ms), o)
@@ -548,9 +630,10 @@ Unary_Result ==
     /\ spc = "unary" /\ ~cur.fail
     /\ LET w == ServerWrite(cur.out[1]) IN
        /\ table' = w.table
+       /\ hmeta' = SpoilByBatch(held, hmeta, w.b)
        /\ outq' = outq \o LogsOf(cur) \o << w.b, Eos >>
     /\ spc' = "read"
-    /\ UNCHANGED <<attached, req, eng, inq, inval, tx, mine, rogue>> /\ SrvUnch /\ Silent
+    /\ UNCHANGED <<attached, req, eng, inq, inval, tx, mine, rogue>> /\ SrvUnchW /\ Silent
 
 \* ---- serveStream
 Stream_InitError ==
@@ -609,10 +692,11 @@ Turn_Emit ==
            w == ServerWrite(o)
            logs == IF tx = 0 THEN LogsOf(cur) ELSE <<>> IN
        /\ table' = w.table
+       /\ hmeta' = SpoilByBatch(held, hmeta, w.b)
        /\ outq' = outq \o logs \o << w.b >>
     /\ tx' = tx + 1
     /\ spc' = "sin"
-    /\ UNCHANGED <<attached, req, eng, inq, inval, mine, rogue>> /\ SrvUnch /\ Silent
+    /\ UNCHANGED <<attached, req, eng, inq, inval, mine, rogue>> /\ SrvUnchW /\ Silent
 
 \* drainInputStream / the trailing drain of serveStream: nothing is resolved, nothing freed
 Drain_Batch ==
@@ -628,7 +712,7 @@ Drain_EOS ==
 --------------------------------------------------------------------------
 Init ==
     /\ seg \in Segs /\ hold \in Holds
-    /\ attached = FALSE /\ table = <<>> /\ held = <<>>
+    /\ attached = FALSE /\ table = <<>> /\ held = <<>> /\ hmeta = <<>>
     /\ cpc = "idle" /\ spc = "read"
     /\ cur = [k |-> "none"] /\ req = [t |-> "req", ptr |-> FALSE, off |-> 0]
     /\ eng = FALSE /\ ceng = FALSE
@@ -645,7 +729,7 @@ StartCall ==
     /\ \E c \in (IF ncalls = 0 THEN Calls ELSE Probes) : Start(c)
 
 Client == StartCall \/ SendInput \/ CloseInput \/ Recv \/ RecvRest \/ RecvNothing
-          \/ EndCall \/ Release \/ Close
+          \/ EndCall \/ Release \/ ReleaseOne \/ Close
 Server == ReadRequest_OK \/ ReadRequest_EOF \/ ReadRequest_Misframed \/ Misdrain_Batch \/ Misdrain_EOS
           \/ ReadRequest_EmptyStream \/ Ensure_Attach \/ Ensure_Reuse \/ Ensure_None
           \/ ResolveRequest_Pointer \/ ResolveRequest_Inline \/ Expose \/ PointerRefused \/ NoSegment_Pass
@@ -670,7 +754,20 @@ SameAsPlain ==
 OnlyHeldRegions ==
     (cpc = "idle") => \A i \in 1..Len(table) : \E j \in 1..Len(held) : held[j] = Off(table[i])
 EmptyAfterRelease ==
-    [][ (hist' # hist /\ Last.a \in {"Release", "Close"}) => (Last.exp.clean /\ table' = <<>>) ]_vars
+    [][ /\ (hist' # hist /\ Last.a \in {"Release", "Close"}) => (Last.exp.clean /\ table' = <<>>)
+        /\ (hist' # hist /\ Last.a = "ReleaseOne" /\ held' = <<>>) => (Last.exp.clean /\ table' = <<>>)
+        /\ (hist' # hist /\ Last.a = "ReleaseOne") => Last.exp.leak = 0 ]_vars
+\* (a), for a client that keeps several pointers and reads through them later: whatever is written
+\* to the segment while a pointer is outstanding, the pointer still shows the result it was given for,
+\* and its region is there to be released
+HeldIntact ==
+    [][ /\ IsCall => Last.exp.intact
+        /\ (hist' # hist /\ Last.a \in {"Release", "ReleaseOne", "Close"}) => (Last.exp.intact /\ Last.exp.freed) ]_vars
+HeldBacked ==
+    (cpc = "idle") => \A j \in 1..Len(held) :
+        /\ hmeta[j][2]
+        /\ Cardinality({i \in 1..Len(table) : Off(table[i]) = held[j]}) = 1
+        /\ \E i \in 1..Len(table) : Off(table[i]) = held[j] /\ table[i][2] = hmeta[j][1]
 NoLeak == [][ IsCall => Last.exp.leak = 0 ]_vars
 
 \* (c) every client region the server resolved is gone from the table when the call is over
@@ -695,6 +792,6 @@ TableConsistent ==
 \* every call is eventually over
 Answered == (cpc # "idle") ~> (cpc = "idle")
 
-View == <<seg, hold, attached, table, held, cpc, spc, cur, req, eng, ceng, inq, outq, inval, ix, tx,
+View == <<seg, hold, attached, table, held, hmeta, cpc, spc, cur, req, eng, ceng, inq, outq, inval, ix, tx,
           more, respdone, inclosed, mine, resp, xfer, sent, rogue, extra, ncalls, closed>>
 =============================================================================
